@@ -212,7 +212,10 @@ GSubs == <<
     SchemaF(<< <<"deep", DeepS>>, <<"x", With(IntF, [hasmin |-> TRUE, min |-> 0])>> >>),
     [dynamic |-> TRUE] @@ SchemaF(<< <<"y", With(StringF, [default |-> s(<<"q">>)])>> >>),
     SchemaF(<< <<"l", With(ListF(With(IntF, [hasmin |-> TRUE, min |-> 0])), [default |-> ListV(<<IntV(1)>>)])>> >>),
-    [ctype |-> TRUE] @@ SchemaF(<< <<"u", With(IntF, [default |-> IntV(0)])>> >>) >>
+    [ctype |-> TRUE] @@ SchemaF(<< <<"u", With(IntF, [default |-> IntV(0)])>> >>),
+    \* a feature-flagged section (flag off by default): assignments are validated all the same
+    [flagkey |-> "enabled"] @@ SchemaF(<< <<"x", With(IntF, [hasmin |-> TRUE, min |-> 1, hasmax |-> TRUE, max |-> 9, required |-> TRUE, default |-> IntV(2)])>>,
+                                          <<"enabled", With(BoolF, [default |-> BoolV(FALSE)]) @@ [flag |-> TRUE]>> >>) >>
 GNodes == GLeaves \o GSubs
 NG == Len(GNodes)
 GFirst == SchemaF(<< <<"a", With(IntF, [hasmin |-> TRUE, min |-> 1, hasmax |-> TRUE, max |-> 9, default |-> IntV(5)])>>,
